@@ -11,11 +11,15 @@
 //             direct: PatternFormatter constructed from pat (timestamp pattern %H:%M:%S.%Qns, GMT), format() called
 //             (once with decoy values, then with these values; the second result is reported)
 //         E id=.. pat=.. multi=0|1 logger=.. level=3..8 ts=.. src=.. fn=.. tags=..|- kind=plain|named|rt msg=..
-//             [tmpl=.. nvn=<count> nv=v1,v2]  [file=.. line=<dec> func=..]
+//             [tmpl=.. nvn=<count> nv=v1,v2]  [file=.. line=<dec> func=..]  [sinks=<s>,<s>,..]
+//             sinks: the logger gets its own recording sinks in this order; <s> = "-" (plain sink: the logger's
+//             pattern) or the hex of the sink's override pattern (Sink(override_pattern_formatter_options));
+//             without it the logger has one plain sink.
 //             end to end: a logger with these PatternFormatterOptions, one statement through the real frontend
 //             (log_statement / LOG_RUNTIME_METADATA), the real queue and ManualBackendWorker::poll() into a
 //             recording sink.
 //   <out>: {"id":n,"res":"ok"|"rejected"|"error","out":s,"err":s}  /  {"id":n,"outs":[s..],"msgs":[s..],"notes":[s..]}
+//          with sinks=: additionally "souts":[[s..],..] = what each sink received, in the order of the sinks
 //          first line {"hdr":1,"tid":s,"pid":s}
 #include "quill/Backend.h"
 #include "quill/Frontend.h"
@@ -33,6 +37,7 @@
 #include <fstream>
 #include <map>
 #include <memory>
+#include <optional>
 #include <sstream>
 #include <string>
 #include <vector>
@@ -173,6 +178,7 @@ static int do_extract()
 struct RecSink : quill::Sink
 {
   std::vector<std::pair<std::string, std::string>> rec;   // (log_message, log_statement)
+  explicit RecSink(std::optional<PatternFormatterOptions> o = std::nullopt) : quill::Sink(std::move(o)) {}
   void write_log(MacroMetadata const*, uint64_t, std::string_view, std::string_view, std::string const&,
                  std::string_view, LogLevel, std::string_view, std::string_view,
                  std::vector<std::pair<std::string, std::string>> const*, std::string_view msg,
@@ -232,10 +238,24 @@ static void run_e2e(KV const& c, std::FILE* out)
   std::string const msg = S(c, "msg");
   try
   {
-    quill::Logger* lg = quill::Frontend::create_or_get_logger(
-      S(c, "logger"), g_sink,
-      PatternFormatterOptions{S(c, "pat"), "%H:%M:%S.%Qns", quill::Timezone::GmtTime, multi},
-      quill::ClockSourceType::User, &g_clock);
+    PatternFormatterOptions const pfo{S(c, "pat"), "%H:%M:%S.%Qns", quill::Timezone::GmtTime, multi};
+    std::vector<std::shared_ptr<quill::Sink>> sinks;
+    if (c.count("sinks"))
+    {
+      size_t k = 0;
+      for (auto const& sp : split(c.at("sinks"), ','))
+      {
+        std::string const name = "ms" + id + "_" + std::to_string(k++);
+        if (sp == "-")
+          sinks.push_back(quill::Frontend::create_or_get_sink<RecSink>(name));
+        else
+          sinks.push_back(quill::Frontend::create_or_get_sink<RecSink>(
+            name, std::optional<PatternFormatterOptions>{PatternFormatterOptions{unhex(sp), "%H:%M:%S.%Qns", quill::Timezone::GmtTime, multi}}));
+      }
+    }
+    else
+      sinks.push_back(g_sink);
+    quill::Logger* lg = quill::Frontend::create_or_get_logger(S(c, "logger"), sinks, pfo, quill::ClockSourceType::User, &g_clock);
     lg->set_log_level(LogLevel::TraceL3);
     char const* tags = isnull(c, "tags") ? nullptr : keep(S(c, "tags"));
     if (kind == "plain")
@@ -264,7 +284,21 @@ static void run_e2e(KV const& c, std::FILE* out)
       QUILL_LOG_RUNTIME_METADATA(lg, level, file, line, func, "{}", msg);
     }
     g_mbw->poll();
-    std::vector<std::pair<std::string, std::string>> got = rs->rec;
+    std::vector<std::pair<std::string, std::string>> got = static_cast<RecSink*>(sinks[0].get())->rec;
+    std::string souts;
+    if (c.count("sinks"))
+    {
+      souts = ",\"souts\":[";
+      for (size_t k = 0; k < sinks.size(); ++k)
+      {
+        souts += k ? ",[" : "[";
+        auto const& r = static_cast<RecSink*>(sinks[k].get())->rec;
+        for (size_t i = 0; i < r.size(); ++i) souts += std::string{i ? "," : ""} + "\"" + jesc(r[i].second) + "\"";
+        souts += "]";
+      }
+      souts += "]";
+    }
+    sinks.clear();
     quill::Frontend::remove_logger(lg);
     g_mbw->poll();
     g_mbw->poll_one();   // idle poll: logger cleanup
@@ -274,7 +308,7 @@ static void run_e2e(KV const& c, std::FILE* out)
     for (size_t i = 0; i < got.size(); ++i) std::fprintf(out, "%s\"%s\"", i ? "," : "", jesc(got[i].first).c_str());
     std::fprintf(out, "],\"notes\":[");
     for (size_t i = 0; i < g_notes.size(); ++i) std::fprintf(out, "%s\"%s\"", i ? "," : "", jesc(g_notes[i]).c_str());
-    std::fprintf(out, "]}\n");
+    std::fprintf(out, "]%s}\n", souts.c_str());
   }
   catch (std::exception const& e)
   {
